@@ -166,6 +166,10 @@ def inner():
 def one():
     LOG.append("one")
     return "one(%d)" % X + dds.keep("/x/y", inner)
+
+def reader():
+    LOG.append("reader")
+    return "reader(" + str(dds.load("/one")) + ")"
 '''
 
 
@@ -230,6 +234,16 @@ def apply_views(s, op):
     v = op[1]
     dds.set_store("local", internal_dir=os.path.join(s.root, "stores", s.internal), data_dir=os.path.join(s.root, "stores", f"view{v}"))
     s.mod.LOG[:] = []
+    if op[0] == "read":
+        # an evaluation that loads /one (kept by an earlier evaluation of this view) inside a kept function
+        r = call(lambda: dds.keep("/r", s.mod.reader))
+        c = s.committed[v]
+        if c is not None and c in s.blobs:
+            if r != ("ok", "reader(one(%d)inner(%d))" % (c, c)):
+                bad(f"reader_wrong|{r[0]}", f"reader in view {v} -> {r!r}, /one was last committed as one({c})...")
+        elif r[0] == "ok":
+            bad("reader_served_without_blob", f"reader in view {v} returned {r[1]!r} although the view cannot serve /one")
+        return probs
     if op[0] == "keep":
         r = call(lambda: dds.keep("/one", s.mod.one))
         if r != ("ok", "one(%d)inner(%d)" % (s.x, s.x)):
@@ -263,7 +277,7 @@ def key_views(s):
     return (s.x, s.internal, tuple(sorted(s.committed.items())), tuple(sorted(s.blobs)), tree(os.path.join(s.root, "stores")))
 
 
-VIEW_OPS = [("keep", 1), ("keep", 2), ("edit",), ("move_internal",), ("new_internal",), ("load", 1, "/one"), ("load", 2, "/one"), ("load", 1, "/x/y"), ("load", 2, "/x/y")]
+VIEW_OPS = [("keep", 1), ("keep", 2), ("edit",), ("move_internal",), ("new_internal",), ("read", 1), ("load", 1, "/one"), ("load", 2, "/one"), ("load", 1, "/x/y"), ("load", 2, "/x/y")]
 
 
 def _views_job(items):
